@@ -84,6 +84,7 @@ def cotan_weights(mesh : SurfaceMesh, name="cotan_weight", persistent: bool = Tr
         cw = mesh.edges.create_attribute(name, float, dense=dense)
     else:
         cw = ArrayAttribute(float, len(mesh.edges)) if dense else Attribute(float)
+    cw.clear() # start from zero even when create_attribute handed back an existing attribute of that name
 
     if mesh.face_corners.has_attribute("cotan"):
         cot = mesh.face_corners.get_attribute("cotan")
